@@ -165,6 +165,7 @@ T1_FOREIGN = {("set", "none-field"), ("set", "nested-key"), ("set", "nontensor")
 def behaviour(run, drv, kinds, meta):
     import torch  # noqa: F401
     from tensordict import TensorDictBase
+    from tensordict.tensorclass import NonTensorData
 
     import c15_args as G
     import c15_behaviour as B
@@ -286,6 +287,21 @@ def behaviour(run, drv, kinds, meta):
                     nones = sorted(k for k, v in r_tc.items() if v is None)
                     if nones:
                         why = f"to_dict(retain_none=False) still lists the None-valued fields {nones}"
+                if why is None and name == "to_tensordict" and kA.get("retain_none") is False and isinstance(r_tc, TensorDictBase):
+                    nones = sorted(k for k in r_tc.keys() if isinstance(r_tc.get(k), NonTensorData) and r_tc.get(k).data is None)
+                    if nones:
+                        why = f"to_tensordict(retain_none=False) still holds the None-valued fields {nones}"
+                if why is None and name in ("update", "update_") and aA and not on_class:
+                    # does the receiver share memory with the source afterwards?  (`clone=` decides; same answer on both sides)
+                    def shares(dst, src):
+                        try:
+                            src = src._tensordict if B.is_tensorclass(src) else src
+                            return dst.get("x").data_ptr() == (src["x"] if isinstance(src, dict) else src.get("x")).data_ptr()
+                        except Exception:  # noqa: BLE001
+                            return None
+                    s_tc, s_td = shares(tcA._tensordict, aA[0]), shares(tdB, aB[0])
+                    if s_tc != s_td:
+                        why = f"afterwards the tensorclass {'shares' if s_tc else 'does not share'} the storage of x with the source, the tensordict {'does' if s_td else 'does not'}"
                 if why is None and B.canon(tcA._tensordict) != B.canon(tdB):
                     why = "side effects on the receiver differ"
                 if why is None:
@@ -363,6 +379,7 @@ def main():
     guarded(run, "torch_functions", S.torch_functions, run, drv, ["D1", "S1"] if run.tier == "quick" else ["D1", "S1", "Fz", "Ac", "Nc", "Sh", "D2"])
     guarded(run, "torch_mixed", S.torch_mixed, run, ["D1", "S1"] if run.tier == "quick" else ["D1", "S1", "Fz", "Ac", "Nc", "Sh", "D2"])
     guarded(run, "property_setters", S.property_setters, run)
+    guarded(run, "undeclared_writes", S.undeclared_writes, run)
     guarded(run, "typed_fields", S.typed_fields, run, drv)
     guarded(run, "items_stream", S.items_stream, run, drv)
     guarded(run, "zero_d_setitem", S.zero_d_setitem, run)
